@@ -326,7 +326,7 @@ impl ChainSim {
     }
 
     /// Pushes the legal move `m` through the given route and checks that it is accepted.
-    fn push_legal(&mut self, m: RefMove, via: u8, stats: &mut Stats) -> Result<(), Failure> {
+    pub fn push_legal(&mut self, m: RefMove, via: u8, stats: &mut Stats) -> Result<(), Failure> {
         let mv = f(mv_to_lib(&m))?;
         let legal = self.cur().legal();
         let before_len = self.chain.len();
@@ -640,5 +640,158 @@ impl ChainSim {
             }
         }
         self.verify_state()
+    }
+}
+
+/// A reversible 4-ply cycle (a, x, a-back, x-back) of quiet non-pawn moves from `r`, if there is one.
+pub fn find_cycle(r: &RefPos) -> Option<[RefMove; 4]> {
+    let quiet = |p: &RefPos| -> Vec<RefMove> { p.legal().into_iter().filter(|m| m.kind == Kind::Simple && m.man.1 != Pc::P && m.man.1 != Pc::K && m.man.1 != Pc::R && !p.is_capture(m)).collect() };
+    for a in quiet(r) {
+        let p1 = r.apply(&a);
+        for x in quiet(&p1) {
+            let p2 = p1.apply(&x);
+            let ab = RefMove { kind: Kind::Simple, man: a.man, from: a.to, to: a.from };
+            if !p2.legal().contains(&ab) {
+                continue;
+            }
+            let p3 = p2.apply(&ab);
+            let xb = RefMove { kind: Kind::Simple, man: x.man, from: x.to, to: x.from };
+            if !p3.legal().contains(&xb) {
+                continue;
+            }
+            let p4 = p3.apply(&xb);
+            if p4.rep_key() == r.rep_key() {
+                return Some([a, x, ab, xb]);
+            }
+        }
+    }
+    None
+}
+
+/// Very long chains (more plies than fit in 16 bits): walker, pops and printing against a model built with the
+/// reference apply(). `case` = {"fen", "plies"}.
+pub fn long_chain_check(case: &Value, stats: &mut Stats) -> Result<(), Failure> {
+    let (b, r) = match case_board(case, stats)? {
+        Some(x) => x,
+        None => return Ok(()),
+    };
+    let plies = case["plies"].as_u64().unwrap_or(65_600) as usize;
+    let cycle = find_cycle(&r).ok_or_else(|| Failure::new("harness: no reversible cycle from the start position"))?;
+    let mut chain = MoveChain::new(b.clone());
+    let mut raws: Vec<owlchess::RawBoard> = Vec::with_capacity(plies + 1);
+    let mut cur = r.clone();
+    raws.push(raw_from_ref(&cur));
+    let mut libs: Vec<Move> = Vec::with_capacity(plies);
+    for i in 0..plies {
+        let m = cycle[i % 4];
+        let mv = mv_to_lib(&m).map_err(Failure::new)?;
+        chain.push(mv).map_err(|e| Failure::new(format!("ply {}: legal move {} refused: {}", i, m.uci(), e)))?;
+        cur = cur.apply(&m);
+        raws.push(raw_from_ref(&cur));
+        libs.push(mv);
+        if *chain.last().raw() != raws[i + 1] {
+            return Err(Failure::new(format!("ply {}: chain position {} differs from the model {}", i, chain.last().as_fen(), cur.fen())));
+        }
+    }
+    if chain.len() != plies {
+        return Err(Failure::new(format!("chain.len() = {} after {} accepted pushes", chain.len(), plies)));
+    }
+    check_consistent(chain.last(), "end of the long chain")?;
+    let end_snap = snapshot(chain.last());
+    {
+        let mut w = chain.walk();
+        let cmp = |pos: &Board, m: Move, i: usize| -> Result<(), Failure> {
+            if *pos.raw() != raws[i] || m != libs[i] {
+                return Err(Failure::new(format!(
+                    "walker at index {} of {}: returned move {} / position {}, the game has {} / {}",
+                    i, plies, mv_desc(&m), pos.raw().as_fen(), mv_desc(&libs[i]), raws[i].as_fen()
+                )));
+            }
+            Ok(())
+        };
+        if w.len() != plies || w.pos() != 0 {
+            return Err(Failure::new(format!("fresh walker: len {} pos {}", w.len(), w.pos())));
+        }
+        // a few steps from the start, then from the end backwards across the 16-bit boundary
+        for i in 0..6.min(plies) {
+            let (pos, m) = w.next().ok_or_else(|| Failure::new("next() returned None inside the chain"))?;
+            cmp(pos, m, i)?;
+        }
+        w.end();
+        if w.pos() != plies {
+            return Err(Failure::new(format!("pos() after end() = {}, chain has {} moves", w.pos(), plies)));
+        }
+        if w.next().is_some() {
+            return Err(Failure::new("next() after end() returned a move".to_string()));
+        }
+        let back = (plies.saturating_sub(65_520)).max(8).min(plies);
+        for k in 0..back {
+            let i = plies - 1 - k;
+            let (pos, m) = w.prev().ok_or_else(|| Failure::new(format!("prev() returned None at index {}", i)))?;
+            cmp(pos, m, i)?;
+            if w.pos() != i {
+                return Err(Failure::new(format!("pos() = {} after prev() to index {}", w.pos(), i)));
+            }
+        }
+        // full forward pass
+        w.start();
+        let mut i = 0;
+        while let Some((pos, m)) = w.next() {
+            cmp(pos, m, i)?;
+            i += 1;
+            if w.pos() != i {
+                return Err(Failure::new(format!("pos() = {} after {} next() calls", w.pos(), i)));
+            }
+        }
+        if i != plies {
+            return Err(Failure::new(format!("forward walk ended after {} of {} moves", i, plies)));
+        }
+    }
+    if snapshot(chain.last()) != end_snap {
+        return Err(Failure::new("walking changed the chain's position".to_string()));
+    }
+    // printing: first and last tokens of the UCI list, number of tokens
+    let text = chain.uci().to_string();
+    let toks: Vec<&str> = text.split(' ').collect();
+    if toks.len() != plies || toks[0] != cycle[0].uci() || toks[plies - 1] != cycle[(plies - 1) % 4].uci() {
+        return Err(Failure::new("uci() text of the long chain has the wrong tokens".to_string()));
+    }
+    // pop everything, comparing with the model on the way down
+    for i in (0..plies).rev() {
+        let m = chain.pop().ok_or_else(|| Failure::new(format!("pop returned None with {} moves left", i + 1)))?;
+        if m != libs[i] || *chain.last().raw() != raws[i] {
+            return Err(Failure::new(format!("pop #{}: returned {} / position {}, expected {} / {}", i, mv_desc(&m), chain.last().as_fen(), mv_desc(&libs[i]), raws[i].as_fen())));
+        }
+        if i % 4096 == 0 {
+            check_consistent(chain.last(), "while popping the long chain")?;
+        }
+    }
+    if snapshot(chain.last()) != snapshot(&b) {
+        return Err(Failure::new("popping the whole long chain does not restore the start position".to_string()));
+    }
+    stats.label("long_chain");
+    stats.add("plies", plies as u64);
+    stats.nontrivial(&(case["fen"].to_string(), plies));
+    Ok(())
+}
+
+pub const LONG_CHAIN_CASES: [&str; 3] = [
+    r#"{"fen":"rnbqkbnr/pppppppp/8/8/8/8/PPPPPPPP/RNBQKBNR w KQkq - 0 1","plies":65600}"#,
+    r#"{"fen":"4k1n1/8/8/8/8/8/8/1N2K3 b - - 0 1","plies":65541}"#,
+    r#"{"fen":"4k1n1/8/8/8/8/8/8/1N2K3 w - - 7 65000","plies":70003}"#,
+];
+
+pub fn long_chain_driver(prop: &'static str) -> impl Fn(&crate::engine::RunCtx, &mut Stats, &mut crate::engine::Reporter) {
+    move |_ctx, stats, rep| {
+        let cases: Vec<Value> = LONG_CHAIN_CASES.iter().map(|t| serde_json::from_str(t).unwrap()).collect();
+        let cases = &cases;
+        crate::engine::par_chunks(cases.len() as u64, stats, rep, |range, st, fails| {
+            for i in range {
+                let c = &cases[i as usize];
+                if let Err(f) = crate::engine::guarded(prop, "long_chain", long_chain_check, c, st) {
+                    fails.push((c.clone(), f));
+                }
+            }
+        });
     }
 }
